@@ -97,7 +97,7 @@ def peel (s : Side) : Nat → Nat → Nat
 abbrev Rel := Nat → List Nat
 
 def inR (s₁ s₂ : Side) (d : Nat) (R : Rel) (a b : Nat) : Bool :=
-  (R (peel s₁ d a)).contains (peel s₂ d b)
+  decide (peel s₁ d a < s₁.g.size) && (R (peel s₁ d a)).contains (peel s₂ d b)
 
 def onlyT (sh : ShTab) (a : Nat) : Bool := sub (shOf sh a) [.T]
 
@@ -133,36 +133,41 @@ def plusSep (g : Graph) (y : Nat) : Option (Nat × Nat) :=
 
 def alignFuel : Nat := 64
 
-/-- align two kid lists (a nested plain sequence at the head of either list may be inlined); `strict` = plain element-wise steps are allowed
-(both lists are kid lists of sequences, so every element is evaluated with less fuel) -/
-def align (s₁ s₂ : Side) (d : Nat) (R : Rel) (strict : Bool) : Nat → List Nat → List Nat → Bool
+/-- kids `x, st` of the left graph against `y` of the right graph:
+`x ZeroOrMore(Sequence[s, x'])` against `OneOrMore(z, sep=t)` -/
+def sepA (s₁ s₂ : Side) (d : Nat) (R : Rel) (x st y : Nat) : Bool :=
+  match starSepBody s₁.g st, plusSep s₂.g (peel s₂ d y) with
+  | some (s, x'), some (z, t) =>
+    onlyT s₁.sh x && onlyT s₁.sh x' && onlyT s₁.sh s &&
+    inR s₁ s₂ d R x z && inR s₁ s₂ d R x' z && inR s₁ s₂ d R s t
+  | _, _ => false
+
+/-- the converse situation: `OneOrMore(z, sep=t)` on the left -/
+def sepB (s₁ s₂ : Side) (d : Nat) (R : Rel) (x y st : Nat) : Bool :=
+  match plusSep s₁.g (peel s₁ d x), starSepBody s₂.g st with
+  | some (z, t), some (s, y') =>
+    onlyT s₁.sh z && onlyT s₁.sh t &&
+    inR s₁ s₂ d R z y && inR s₁ s₂ d R z y' && inR s₁ s₂ d R t s
+  | _, _ => false
+
+/-- align the kid lists of two plain sequences: element-wise, `sepA` / `sepB`, or after inlining
+a nested plain sequence at the head of either list -/
+def align (s₁ s₂ : Side) (d : Nat) (R : Rel) : Nat → List Nat → List Nat → Bool
   | 0, _, _ => false
   | _+1, [], [] => true
   | k+1, x :: xs, y :: ys =>
-    (strict && inR s₁ s₂ d R x y && align s₁ s₂ d R strict k xs ys)
+    (inR s₁ s₂ d R x y && align s₁ s₂ d R k xs ys)
     || (match xs with
-        | st :: xs' =>
-          (match starSepBody s₁.g st, plusSep s₂.g (peel s₂ d y) with
-           | some (s, x'), some (z, t) =>
-             onlyT s₁.sh x && onlyT s₁.sh x' && onlyT s₁.sh s &&
-             inR s₁ s₂ d R x z && inR s₁ s₂ d R x' z && inR s₁ s₂ d R s t &&
-             align s₁ s₂ d R strict k xs' ys
-           | _, _ => false)
+        | st :: xs' => sepA s₁ s₂ d R x st y && align s₁ s₂ d R k xs' ys
         | [] => false)
     || (match ys with
-        | st :: ys' =>
-          (match plusSep s₁.g (peel s₁ d x), starSepBody s₂.g st with
-           | some (z, t), some (s, y') =>
-             onlyT s₁.sh z && onlyT s₁.sh t &&
-             inR s₁ s₂ d R z y && inR s₁ s₂ d R z y' && inR s₁ s₂ d R t s &&
-             align s₁ s₂ d R strict k xs ys'
-           | _, _ => false)
+        | st :: ys' => sepB s₁ s₂ d R x y st && align s₁ s₂ d R k xs ys'
         | [] => false)
     || (match s₁.g.get x with
-        | some nd => transparentSeq nd && align s₁ s₂ d R strict k (nd.kids ++ xs) (y :: ys)
+        | some nd => transparentSeq nd && align s₁ s₂ d R k (nd.kids ++ xs) (y :: ys)
         | none => false)
     || (match s₂.g.get y with
-        | some nd => transparentSeq nd && align s₁ s₂ d R strict k (x :: xs) (nd.kids ++ ys)
+        | some nd => transparentSeq nd && align s₁ s₂ d R k (x :: xs) (nd.kids ++ ys)
         | none => false)
   | _+1, _, _ => false
 
@@ -191,10 +196,15 @@ def okPair (s₁ s₂ : Side) (H : Hyps) (d : Nat) (R : Rel) (a b : Nat) : Bool 
   | some na, some nb =>
     let seqA := transparentSeq na
     let seqB := transparentSeq nb
-    if seqA || seqB then
-      let xs := if seqA then na.kids else [a]
-      let ys := if seqB then nb.kids else [b]
-      align s₁ s₂ d R (seqA && seqB) alignFuel xs ys
+    if seqA && seqB then align s₁ s₂ d R alignFuel na.kids nb.kids
+    else if seqA then
+      (match na.kids with
+       | [x, st] => sepA s₁ s₂ d R x st b
+       | _ => false)
+    else if seqB then
+      (match nb.kids with
+       | [y, st] => sepB s₁ s₂ d R a y st
+       | _ => false)
     else if !(supported na && supported nb) || na.suppress != nb.suppress then false
     else
       match na.kind, nb.kind with
